@@ -264,6 +264,23 @@ def generate(tier):
                                           [marks] if sh.kind == 'struct' else [marks, {}], salt, sspell=sspell)
                                 if c:
                                     cases.append(c)
+    # nested reference targets: every spelling of the lifetimes (written or elided at either level) at the type level x on the field marker (or no marker: the field is found by its type)
+    nspell = ["&'static &'static str", '&&str', "&'static &str", "&&'static str"]
+    for ti, tsp in enumerate(nspell):
+        for mi, msp in enumerate(nspell + [None]):
+            m = ('#[educe(Into(%s))] ' % msp) if msp else ''
+            for kind, decl, mk in (('sn', "pub struct Ty { %spub a: &'static &'static str, pub b: u8 }", 'Ty { a: &NS0, b: 1 }'),
+                                   ('st', "pub struct Ty(pub u8, %spub &'static &'static str, pub &'static str);", 'Ty(1, &NS0, "q")'),
+                                   ('en', "pub enum Ty { A(%spub_less &'static &'static str, u8), B { %sy: &'static &'static str } }", 'Ty::A(&NS0, 1)')):
+                d = decl.replace('pub_less ', '')
+                d = d % ((m,) * d.count('%s'))
+                src = 'static NS0: &str = "p";\n#[derive(Educe)]\n#[educe(Into(%s))]\n%s\n' % (tsp, d)
+                src += ('pub fn check(r: &mut Rep) {\n    let v = %s;\n    let x: &\'static &\'static str = v.into();\n'
+                        '    r.ck(**x == *"p", 0, &|| format!("into() returns {:?}, the designated field holds \\"p\\"", x));\n' % mk)
+                if kind == 'en':
+                    src += '    let w = Ty::B { y: &NS0 };\n    let y: &\'static &\'static str = w.into();\n    r.ck(**y == *"p", 1, &|| format!("into() of the second variant returns {:?}", y));\n'
+                src += '}\n'
+                cases.append(Case('C10|nested-ref|%d|%s|%s' % (ti, 'none' if msp is None else mi, kind), src, {'type-level target': tsp, 'field marker': msp, 'shape': kind}, expect='accept', run=True, depth=2))
     cases += zoo(tier)
     # conversions: a field type whose inherent `into` answers differently from its Into impl; generic fields that are convertible for one target only
     for kind, decl, mk in (('sn', 'pub struct Ty { {M}pub a: Inh, pub b: bool }', 'Ty { a: inh(%d), b: true }'), ('st', 'pub struct Ty({M}pub Inh, pub bool);', 'Ty(inh(%d), true)'),
